@@ -71,6 +71,7 @@ add("C13",
     shards={"quick": 16, "thorough": 16},
     require_counts=["midrun_index_write", "executions:prune/repack-slow", "executions:copy/one-blob-packs"],
     require_max={"max_pending_width": 2},
+    variants=[{"name": "1cpu-rayon1", "rayon": 1, "cpus": 1}, {"name": "2cpu-rayon3", "rayon": 3, "cpus": 2}],
     )
 
 add("C03",
